@@ -36,6 +36,7 @@ e -> a.c: L8
 	{Name: "styles", Text: `a: L1 {
   style: {
     fill: red
+    stroke: blue
     opacity: 0.5
   }
 }
